@@ -53,6 +53,7 @@ PROPS["C02"] = dict(
         "Zrnt.Proofs.C02.EpochWF_of_Q",
         "Zrnt.Proofs.C02.Q_genesis_like",
         "Zrnt.Proofs.C02.processSlots_eq",
+        "Zrnt.Proofs.C02.oracle_links",
         "Zrnt.Proofs.C02.attestationDeltas_phase0_eq",
         "Zrnt.Proofs.C02.targetStakes_phase0_eq",
         "Zrnt.Proofs.C02.effectiveBalance_snapshot_eq",
